@@ -19,7 +19,8 @@ Trace == ndJsonDeserialize(IOEnv.OBS_FILE)
 Has(r, f) == f \in DOMAIN r
 V(c, s) == [class |-> c, sig |-> s]
 
-Spelling(t) == IF t.lit # "" THEN t.lit ELSE t.tok
+\* tokstr(tok, lit) of the parser: the literal, else Token.String() - which is EMPTY for COMMENT
+Spelling(t) == IF t.lit # "" THEN t.lit ELSE IF t.tok = "COMMENT" THEN "" ELSE t.tok
 EPos(e) == [l |-> e.line, c |-> e.char]
 
 Verdicts(r) ==
@@ -48,6 +49,12 @@ Verdicts(r) ==
       ELSE IF EOFLate THEN {V("Dev_EOFPosLate", "")}
       ELSE IF \E j \in 1..Len(T) : RegexPrev(j) THEN {V("Dev_RegexErrorPosPrevRune", "")}
       ELSE IF \E j \in 1..Len(T) : OwnDev(j) THEN {V(OwnClass, "")}   \* the token's own (listed) position deviation, quoted by the error
+      \* The token list comes from a context-free scan; the parser scans regexes on request, so after a
+      \* "/" the two tokenisations can differ ( /a/*GROUP is a regex, "*", GROUP for the parser but the start
+      \* of a comment for the plain scanner).  The claim is judged only when the named token can be located.
+      ELSE IF ~\E j \in 1..Len(T) : ok(j) /\ Spelling(T[j]) = e.found THEN {V("drift:found-token-not-located", "")}
+      ELSE IF \E j \in 1..Len(T) : ok(j) /\ \E k \in (T[j].s + 1)..(T[j].e - 1) : EPos(e) = LineCol(inp, k)
+           THEN {V("drift:found-token-not-located", "")}    \* the position lies strictly inside a token of the plain scan
       ELSE IF \E j \in 1..Len(T) : Exact(j) THEN {V("error-names-other-token", "")}
       ELSE {V("error-pos-wrong", "found")})
   ELSE IF e.line = 0 /\ e.char = 0 THEN {}
